@@ -104,6 +104,10 @@ def runCx (c : Case) : Res :=
           bad := s!"result fails Level 3 (topology, g={g}): {failing} completionLinks={J.l3c}" :: bad
       if expect == "state" && bootstrap && !J.l1 then
         bad := "bootstrap state fails Level 1 (element validity)" :: bad
+      if expect == "valid12" then
+        -- C13: a document that was LOADED must describe a structurally consistent complex
+        if !J.l1 then bad := s!"loaded document fails Level 1 (element validity): corruption={c.arg "corruption"}" :: bad
+        if J.l1 && !J.l2 then bad := s!"loaded document fails Level 2 (structure): corruption={c.arg "corruption"}" :: bad
       if expect == "valid12m" then
         if !J.l1 then bad := "state fails Level 1 (element validity) on independent recomputation" :: bad
         if !J.l2 then bad := "state fails Level 2 (structure) on independent recomputation" :: bad
